@@ -50,6 +50,7 @@ fn main() {
     let code = match args[1].as_str() {
         "replay" => replay(&args[2..]),
         "gen" => gen_cmd(&args[2..]),
+        "record" => record_cmd(&args[2..]),
         other => {
             eprintln!("unknown command {other}");
             2
@@ -194,4 +195,62 @@ fn gen_cmd(args: &[String]) -> i32 {
             2
         }
     }
+}
+
+/// sfs-conform record create <trace.ndjson>
+/// impl -> spec: run the real `sfs create` (built with the trace hook) on the repository's fixtures and on
+/// pseudo-random cohorts; every run appends its events to the trace file.  Prints a JSON summary.
+fn record_cmd(args: &[String]) -> i32 {
+    if args.len() != 2 || args[0] != "create" {
+        eprintln!("usage: sfs-conform record create <trace.ndjson>");
+        return 2;
+    }
+    let ctx = Ctx::from_env();
+    let trace = &args[1];
+    let _ = fs::remove_file(trace);
+    let fixtures = "/repo/cli/tests/create";
+    let mut runs: Vec<(Vec<String>, Option<Vec<u8>>)> = Vec::new();
+    let f = |name: &str| format!("{fixtures}/{name}");
+    for (file, opts) in [
+        ("simple.vcf", vec![]), ("simple.bcf", vec![]), ("simple.vcf.gz", vec!["-s", "sample0=A,sample1=A,sample2=B,sample3=B,sample4=B"]),
+        ("missing.bcf", vec![]), ("missing.bcf", vec!["--strict"]), ("missing.bcf", vec!["--project-individuals", "2"]),
+        ("missing.bcf", vec!["--project-individuals", "1,1", "-s", "sample0=A,sample1=B,sample2=A,sample4=B"]),
+        ("missing.bcf", vec!["-s", "sample0=A,sample1=B,sample2=C"]), ("large.bcf", vec![]), ("large.bcf", vec!["--project-individuals", "3"]),
+        ("large.bcf", vec!["--strict"]),
+    ] {
+        if std::path::Path::new(&f(file)).exists() {
+            let mut a: Vec<String> = vec!["create".into()];
+            a.extend(opts.iter().map(|s| s.to_string()));
+            a.push(f(file));
+            runs.push((a, None));
+        }
+    }
+    let seed = ctx.seed;
+    let big = std::env::var("RECORD_BIG").is_ok();
+    let cohorts: Vec<(usize, usize, u64, u64, usize)> = if big {
+        vec![(12, 400, 5, 1, 2), (40, 1500, 20, 2, 3), (400, 600, 10, 0, 4), (120, 5000, 40, 3, 2), (30, 2000, 0, 0, 1)]
+    } else {
+        vec![(8, 120, 10, 2, 2), (24, 300, 25, 1, 3), (60, 200, 5, 0, 4)]
+    };
+    for (ci, (ns, nr, miss, multi, npops)) in cohorts.iter().enumerate() {
+        let (cols, vcf) = fam_container::cohort_vcf(seed.wrapping_add(ci as u64 * 977), *ns, *nr, *miss, *multi);
+        let arg = cols.iter().enumerate().map(|(i, c)| format!("{c}=P{}", i % npops)).collect::<Vec<_>>().join(",");
+        let per_pop = ns / npops;
+        let proj_small: String = (0..*npops).map(|_| "3".to_string()).collect::<Vec<_>>().join(",");
+        let proj_exact: String = (0..*npops).map(|j| (2 * (per_pop + usize::from(j < ns % npops)) + 1).to_string()).collect::<Vec<_>>().join(",");
+        for opts in [vec!["-s".to_string(), arg.clone()], vec!["-s".into(), arg.clone(), "--strict".into()],
+                     vec!["-s".into(), arg.clone(), "--project-shape".into(), proj_small], vec!["-s".into(), arg.clone(), "--project-shape".into(), proj_exact]] {
+            let mut a: Vec<String> = vec!["create".into()];
+            a.extend(opts);
+            runs.push((a, Some(vcf.clone().into_bytes())));
+        }
+    }
+    let mut summary = Vec::new();
+    for (args, stdin) in &runs {
+        let a: Vec<&str> = args.iter().map(|s| s.as_str()).collect();
+        let r = cli::sfs_env(&ctx, &a, stdin.as_deref(), &[("SFS_VERIF_TRACE", trace.as_str())]);
+        summary.push(json!({"args": args.iter().map(|s| if s.len() > 60 { format!("{}...", &s[..60]) } else { s.clone() }).collect::<Vec<_>>(), "code": r.code, "stdout_bytes": r.stdout.len(), "panicked": r.panicked()}));
+    }
+    println!("{}", serde_json::to_string(&json!({"runs": summary})).unwrap());
+    0
 }
